@@ -36,19 +36,20 @@ Record ta := {
   fl : fact2;                     (* (a,b): a.fit < b.fit *)
   tl : fact1;                     (* r: tmp < r.fit *)
   tq : fact1;                     (* r: tmp = f(r.position) *)
+  ff : fact2;                     (* (d,s): d.fit equals s.fit *)
   srt : bool;                     (* the population is sorted by fitness *)
   rk : bool;                      (* rank-wise: sorted fitness vector is below the one of the last dump *)
   nd : bool                       (* no record has been written yet *)
 }.
 
-Definition mk bot lo cu hi be tr_ sa sc pf fl tl tq srt rk nd : ta :=
-  {| bot := bot; lo := lo; cu := cu; hi := hi; be := be; tr_ := tr_; sa := sa; sc := sc; pf := pf; fl := fl; tl := tl; tq := tq; srt := srt; rk := rk; nd := nd |}.
+Definition mk bot lo cu hi be tr_ sa sc pf fl tl tq ff srt rk nd : ta :=
+  {| bot := bot; lo := lo; cu := cu; hi := hi; be := be; tr_ := tr_; sa := sa; sc := sc; pf := pf; fl := fl; tl := tl; tq := tq; ff := ff; srt := srt; rk := rk; nd := nd |}.
 
 (* forget all relational facts *)
-Definition nf (a : ta) : ta := mk (bot a) (lo a) (cu a) (hi a) (be a) (tr_ a) (sa a) (sc a) None None None None (srt a) (rk a) (nd a).
-Definition set_pop (a : ta) (l c h : av) : ta := mk (bot a) l c h (be a) (tr_ a) (sa a) (sc a) (pf a) (fl a) (tl a) (tq a) (srt a) (rk a) (nd a).
-Definition set_srk (a : ta) (s r : bool) : ta := mk (bot a) (lo a) (cu a) (hi a) (be a) (tr_ a) (sa a) (sc a) (pf a) (fl a) (tl a) (tq a) s r (nd a).
-Definition set_bot (a : ta) : ta := mk true (lo a) (cu a) (hi a) (be a) (tr_ a) (sa a) (sc a) (pf a) (fl a) (tl a) (tq a) (srt a) (rk a) (nd a).
+Definition nf (a : ta) : ta := mk (bot a) (lo a) (cu a) (hi a) (be a) (tr_ a) (sa a) (sc a) None None None None None (srt a) (rk a) (nd a).
+Definition set_pop (a : ta) (l c h : av) : ta := mk (bot a) l c h (be a) (tr_ a) (sa a) (sc a) (pf a) (fl a) (tl a) (tq a) (ff a) (srt a) (rk a) (nd a).
+Definition set_srk (a : ta) (s r : bool) : ta := mk (bot a) (lo a) (cu a) (hi a) (be a) (tr_ a) (sa a) (sc a) (pf a) (fl a) (tl a) (tq a) (ff a) s r (nd a).
+Definition set_bot (a : ta) : ta := mk true (lo a) (cu a) (hi a) (be a) (tr_ a) (sa a) (sc a) (pf a) (fl a) (tl a) (tq a) (ff a) (srt a) (rk a) (nd a).
 
 Definition allpop (a : ta) : av := meet (lo a) (meet (cu a) (hi a)).
 
@@ -63,15 +64,15 @@ Definition rd (r : ref) (a : ta) : av :=
 
 Definition wr (r : ref) (v : av) (a : ta) : ta :=
   match r with
-  | Cur => mk (bot a) (lo a) v (hi a) (be a) (tr_ a) (sa a) (sc a) (pf a) (fl a) (tl a) (tq a) (srt a) (rk a) (nd a)
-  | Slot _ | Last => mk (bot a) (meet (lo a) v) (meet (cu a) v) (meet (hi a) v) (be a) (tr_ a) (sa a) (sc a) (pf a) (fl a) (tl a) (tq a) (srt a) (rk a) (nd a)
-  | Best => mk (bot a) (lo a) (cu a) (hi a) v (tr_ a) (sa a) (sc a) (pf a) (fl a) (tl a) (tq a) (srt a) (rk a) (nd a)
-  | Tr => mk (bot a) (lo a) (cu a) (hi a) (be a) v (sa a) (sc a) (pf a) (fl a) (tl a) (tq a) (srt a) (rk a) (nd a)
-  | Sh => mk (bot a) (lo a) (cu a) (hi a) (be a) (tr_ a) (sa a) v (pf a) (fl a) (tl a) (tq a) (srt a) (rk a) (nd a)
+  | Cur => mk (bot a) (lo a) v (hi a) (be a) (tr_ a) (sa a) (sc a) (pf a) (fl a) (tl a) (tq a) (ff a) (srt a) (rk a) (nd a)
+  | Slot _ | Last => mk (bot a) (meet (lo a) v) (meet (cu a) v) (meet (hi a) v) (be a) (tr_ a) (sa a) (sc a) (pf a) (fl a) (tl a) (tq a) (ff a) (srt a) (rk a) (nd a)
+  | Best => mk (bot a) (lo a) (cu a) (hi a) v (tr_ a) (sa a) (sc a) (pf a) (fl a) (tl a) (tq a) (ff a) (srt a) (rk a) (nd a)
+  | Tr => mk (bot a) (lo a) (cu a) (hi a) (be a) v (sa a) (sc a) (pf a) (fl a) (tl a) (tq a) (ff a) (srt a) (rk a) (nd a)
+  | Sh => mk (bot a) (lo a) (cu a) (hi a) (be a) (tr_ a) (sa a) v (pf a) (fl a) (tl a) (tq a) (ff a) (srt a) (rk a) (nd a)
   end.
 
 (* a write of the position only: the fitness-related flags of the old value survive *)
-Definition posv (fe : bool) (old : av) : av := {| feas := fe; cons := false; cl := cl old; sent := sent old; mono := mono old |}.
+Definition posv (fe co : bool) (old : av) : av := {| feas := fe; cons := co; cl := cl old; sent := sent old; mono := mono old |}.
 (* a write of the fitness only *)
 Definition fitv (old : av) (co se mo : bool) : av := {| feas := feas old; cons := co; cl := false; sent := se; mono := mo |}.
 
@@ -79,14 +80,14 @@ Definition ta_leb (a b : ta) : bool :=
   bot a || (negb (bot b) &&
    (av_leb (lo a) (lo b) && av_leb (cu a) (cu b) && av_leb (hi a) (hi b) && av_leb (be a) (be b) && av_leb (tr_ a) (tr_ b)
     && av_leb (sa a) (sa b) && av_leb (sc a) (sc b)
-    && f2_leb (pf a) (pf b) && f2_leb (fl a) (fl b) && f1_leb (tl a) (tl b) && f1_leb (tq a) (tq b)
+    && f2_leb (pf a) (pf b) && f2_leb (fl a) (fl b) && f1_leb (tl a) (tl b) && f1_leb (tq a) (tq b) && f2_leb (ff a) (ff b)
     && implb (srt b) (srt a) && implb (rk b) (rk a) && implb (nd b) (nd a))).
 
 Definition ta_join (a b : ta) : ta :=
   if bot a then b else if bot b then a else
   mk false (meet (lo a) (lo b)) (meet (cu a) (cu b)) (meet (hi a) (hi b)) (meet (be a) (be b)) (meet (tr_ a) (tr_ b))
      (meet (sa a) (sa b)) (meet (sc a) (sc b))
-     (f2_join (pf a) (pf b)) (f2_join (fl a) (fl b)) (f1_join (tl a) (tl b)) (f1_join (tq a) (tq b))
+     (f2_join (pf a) (pf b)) (f2_join (fl a) (fl b)) (f1_join (tl a) (tl b)) (f1_join (tq a) (tq b)) (f2_join (ff a) (ff b))
      (srt a && srt b) (rk a && rk b) (nd a && nd b).
 
 Definition c20 (l : nat) (why : string) : list alarm := [(l, ("C20: " ++ why)%string)].
@@ -110,38 +111,39 @@ Section Domain.
   Definition t_atom0 (l : nat) (s : stmt) (a : ta) : ta * list alarm :=
     match s with
     | Skip | Draw | SetHyper _ | Hook | BestTreeCopy | TreeCopy _ _ | TreeSet _ _ | TreeCross _ _ => (a, [])
-    | Havoc _ r | PosFromTree r => (wr r (posv false (rd r a)) (nf a), [])
-    | Clip r => if feas (rd r a) then (a, []) else (wr r (posv true (rd r a)) (nf a), [])
+    | Havoc _ r | PosFromTree r => (wr r (posv false false (rd r a)) (nf a), [])
+    | Clip r => if feas (rd r a) then (a, []) else (wr r (posv true false (rd r a)) (nf a), [])
     | ClipAll =>
-        let g v := if feas v then v else posv true v in
+        let g v := if feas v then v else posv true false v in
         (set_pop (nf a) (g (lo a)) (g (cu a)) (g (hi a)), [])
     | Eval r =>
         if cons (rd r a) then (a, [])
         else (set_srk (wr r (fitv (rd r a) true false false) (nf a)) false (rk a && negb (slotlike r)), [])
-    | EvalTmp r => (mk (bot a) (lo a) (cu a) (hi a) (be a) (tr_ a) (sa a) (sc a) None None None (Some r) (srt a) (rk a) (nd a), [])
+    | EvalTmp r => (mk (bot a) (lo a) (cu a) (hi a) (be a) (tr_ a) (sa a) (sc a) None None None (Some r) None (srt a) (rk a) (nd a), [])
     | SetFitTmp r =>
         (set_srk (wr r (fitv (rd r a) (f1_is (tq a) r) false (mono (rd r a) && f1_is (tl a) r)) (nf a))
                  false (rk a && negb (slotlike r)), [])
     | CopyPos d s0 =>
-        let a1 := wr d (posv (feas (rd s0 a)) (rd d a)) (nf a) in
-        (mk (bot a1) (lo a1) (cu a1) (hi a1) (be a1) (tr_ a1) (sa a1) (sc a1) (Some (d, s0)) (fl a) None None (srt a1) (rk a1) (nd a1), [])
+        let a1 := wr d (posv (feas (rd s0 a)) (f2_is (ff a) (d, s0) && cons (rd s0 a)) (rd d a)) (nf a) in
+        (mk (bot a1) (lo a1) (cu a1) (hi a1) (be a1) (tr_ a1) (sa a1) (sc a1) (Some (d, s0)) (fl a) None None None (srt a1) (rk a1) (nd a1), [])
     | CopyFit d s0 =>
-        (set_srk (wr d (fitv (rd d a) (f2_is (pf a) (d, s0) && cons (rd s0 a)) (sent (rd s0 a))
-                               (mono (rd d a) && f2_is (fl a) (s0, d))) (nf a))
-                 false (rk a && negb (slotlike d)), [])
+        let a1 := set_srk (wr d (fitv (rd d a) (f2_is (pf a) (d, s0) && cons (rd s0 a)) (sent (rd s0 a))
+                                      (mono (rd d a) && f2_is (fl a) (s0, d))) (nf a))
+                          false (rk a && negb (slotlike d)) in
+        (mk (bot a1) (lo a1) (cu a1) (hi a1) (be a1) (tr_ a1) (sa a1) (sc a1) None None None None (Some (d, s0)) (srt a1) (rk a1) (nd a1), [])
     | LocFromPos =>
         let c := cu a in
         (set_pop (nf a) (lo a) {| feas := feas c; cons := cons c; cl := cons c; sent := sent c; mono := mono c |} (hi a), [])
     | BestPosFromLoc => (wr Best {| feas := false; cons := false; cl := false; sent := sent (be a); mono := false |} (nf a), [])
     | SwapPos p q =>
-        let a1 := wr p (posv false (rd p a)) (nf a) in
-        (wr q (posv false (rd q a1)) a1, [])
+        let a1 := wr p (posv false false (rd p a)) (nf a) in
+        (wr q (posv false false (rd q a1)) a1, [])
     | SwapFit p q =>
         let a1 := wr p (fitv (rd p a) false false false) (nf a) in
         (set_srk (wr q (fitv (rd q a1) false false false) a1) false (rk a && negb (slotlike p) && negb (slotlike q)), [])
     | NewTrial s0 => (wr Tr (rd s0 a) (nf a), [])
     | ShadowAll => let p := allpop a in
-        (mk (bot a) (lo a) (cu a) (hi a) (be a) (tr_ a) p p None None None None (srt a) (rk a) (nd a), [])
+        (mk (bot a) (lo a) (cu a) (hi a) (be a) (tr_ a) p p None None None None None (srt a) (rk a) (nd a), [])
     | Store d s0 =>
         let v := rd s0 a in
         let greedy := f2_is (fl a) (s0, d) in
@@ -155,14 +157,14 @@ Section Domain.
     | Dump =>
         let t v := {| feas := feas v; cons := cons v; cl := cl v; sent := sent v; mono := true |} in
         (let a1 := set_pop (nf a) (t (lo a)) (t (cu a)) (t (hi a)) in
-         mk (bot a1) (lo a1) (cu a1) (hi a1) (be a1) (tr_ a1) (sa a1) (sc a1) None None None None (srt a1) true false, dump_alarms l a)
+         mk (bot a1) (lo a1) (cu a1) (hi a1) (be a1) (tr_ a1) (sa a1) (sc a1) None None None None None (srt a1) true false, dump_alarms l a)
     | _ => (a, c20 l "not an atomic statement")
     end.
 
   (* before the first record every "not above the previous record" claim holds vacuously *)
   Definition vac (a : ta) : ta :=
     let t v := {| feas := feas v; cons := cons v; cl := cl v; sent := sent v; mono := true |} in
-    mk (bot a) (t (lo a)) (t (cu a)) (t (hi a)) (be a) (tr_ a) (sa a) (sc a) (pf a) (fl a) (tl a) (tq a) (srt a) true (nd a).
+    mk (bot a) (t (lo a)) (t (cu a)) (t (hi a)) (be a) (tr_ a) (sa a) (sc a) (pf a) (fl a) (tl a) (tq a) (ff a) (srt a) true (nd a).
 
   Definition t_atom (l : nat) (s : stmt) (a : ta) : ta * list alarm :=
     if bot a then (a, []) else
@@ -170,27 +172,27 @@ Section Domain.
 
   Definition t_assume (c : cond) (b : bool) (a : ta) : ta :=
     match c, b with
-    | FitLt p q, true => mk (bot a) (lo a) (cu a) (hi a) (be a) (tr_ a) (sa a) (sc a) (pf a) (Some (p, q)) (tl a) (tq a) (srt a) (rk a) (nd a)
-    | TmpLt r, true => mk (bot a) (lo a) (cu a) (hi a) (be a) (tr_ a) (sa a) (sc a) (pf a) (fl a) (Some r) (tq a) (srt a) (rk a) (nd a)
+    | FitLt p q, true => mk (bot a) (lo a) (cu a) (hi a) (be a) (tr_ a) (sa a) (sc a) (pf a) (Some (p, q)) (tl a) (tq a) (ff a) (srt a) (rk a) (nd a)
+    | TmpLt r, true => mk (bot a) (lo a) (cu a) (hi a) (be a) (tr_ a) (sa a) (sc a) (pf a) (fl a) (Some r) (tq a) (ff a) (srt a) (rk a) (nd a)
     | TmpLt r, false => if f1_is (tq a) r && sent (rd r a) then set_bot a else a
     | _, _ => a
     end.
 
   (* generic (weak) binding of the loop slot: used for Onlooker *)
-  Definition t_enter (a : ta) : ta := mk (bot a) (hi a) (hi a) (hi a) (be a) (tr_ a) (sa a) (sa a) None None None None (srt a) (rk a) (nd a).
+  Definition t_enter (a : ta) : ta := mk (bot a) (hi a) (hi a) (hi a) (be a) (tr_ a) (sa a) (sa a) None None None None None (srt a) (rk a) (nd a).
   Definition t_exit (a : ta) : ta :=
     let p := allpop a in let q := meet (sa a) (sc a) in
-    mk (bot a) p p p (be a) (tr_ a) q q None None None None (srt a) (rk a) (nd a).
+    mk (bot a) p p p (be a) (tr_ a) q q None None None None None (srt a) (rk a) (nd a).
 
   Definition no_special (l : nat) (incur : bool) (s : stmt) (a : ta) : option (ta * list alarm) := None.
   Definition absint0 := absint ta ta_leb ta_join t_atom t_assume t_enter t_exit no_special.
 
   (* the strong update for "for agent in agents": slots below the loop slot are done, the others are still to do *)
-  Definition enter3 (j : ta) : ta := mk (bot j) (lo j) (hi j) (hi j) (be j) (tr_ j) (sa j) (sa j) None None None None (srt j) (rk j) (nd j).
+  Definition enter3 (j : ta) : ta := mk (bot j) (lo j) (hi j) (hi j) (be j) (tr_ j) (sa j) (sa j) None None None None None (srt j) (rk j) (nd j).
   Definition step3 (j : ta) : ta :=
-    mk (bot j) (meet (lo j) (cu j)) (hi j) (hi j) (be j) (tr_ j) (meet (sa j) (sc j)) (meet (sa j) (sc j)) None None None None (srt j) (rk j) (nd j).
-  Definition fin3 (j : ta) : ta := mk (bot j) (lo j) (lo j) (lo j) (be j) (tr_ j) (sa j) (sa j) None None None None (srt j) (rk j) (nd j).
-  Definition start3 (a : ta) : ta := mk (bot a) avtop (hi a) (hi a) (be a) (tr_ a) (sa a) (sa a) None None None None (srt a) (rk a) (nd a).
+    mk (bot j) (meet (lo j) (cu j)) (hi j) (hi j) (be j) (tr_ j) (meet (sa j) (sc j)) (meet (sa j) (sc j)) None None None None None (srt j) (rk j) (nd j).
+  Definition fin3 (j : ta) : ta := mk (bot j) (lo j) (lo j) (lo j) (be j) (tr_ j) (sa j) (sa j) None None None None None (srt j) (rk j) (nd j).
+  Definition start3 (a : ta) : ta := mk (bot a) avtop (hi a) (hi a) (be a) (tr_ a) (sa a) (sa a) None None None None None (srt a) (rk a) (nd a).
 
   Definition t_special (l : nat) (incur : bool) (s : stmt) (a : ta) : option (ta * list alarm) :=
     match s with
@@ -207,7 +209,7 @@ Section Domain.
 
   Definition t_init : ta :=
     let p := {| feas := true; cons := false; cl := false; sent := useloc; mono := true |} in
-    mk false p p p avbot avbot avbot avbot None None None None false true true.
+    mk false p p p avbot avbot avbot avbot None None None None None false true true.
 
   Definition t_check (p : stmt) : bool :=
     match t_absint 0 false p t_init with (_, []) => true | _ => false end.
@@ -227,7 +229,10 @@ Fixpoint has_sub (t s : stmt) : bool :=
   | _ => false
   end.
 
-Definition is_pso (p : stmt) : bool := has_sub (ForSlots pso_body) (strip p).
+(* the particle-swarm family keeps a local best position per agent; [is_pso] recognises it by the write to it, so a
+   rewritten sweep is still judged against the local best *)
+Definition is_pso (p : stmt) : bool := has_sub LocFromPos (strip p).
+Definition has_pso_sweep (p : stmt) : bool := has_sub (ForSlots pso_body) (strip p).
 Definition sorts (p : stmt) : bool := has_sub SortByFit (strip p).
 
 Definition c20_check (p : stmt) : bool := t_check (is_pso p) GNone p.
@@ -307,8 +312,8 @@ Proof.
   unfold ta_leb. destruct (bot a); simpl; [reflexivity|].
   destruct (bot b); simpl; [discriminate|]. destruct (bot c); simpl; [intros _ H; discriminate|].
   rewrite !andb_true_iff.
-  intros [[[[[[[[[[[[[H1 H2] H3] H4] H5] H6] H7] H8] H9] H10] H11] H12] H13] H14]
-         [[[[[[[[[[[[[K1 K2] K3] K4] K5] K6] K7] K8] K9] K10] K11] K12] K13] K14].
+  intros [[[[[[[[[[[[[[H1 H2] H3] H4] H5] H6] H7] H8] H9] H10] H11] H15] H12] H13] H14]
+         [[[[[[[[[[[[[[K1 K2] K3] K4] K5] K6] K7] K8] K9] K10] K11] K15] K12] K13] K14].
   repeat split; try (eapply av_leb_trans; eassumption); try (eapply f2_leb_trans; eassumption);
     try (eapply f1_leb_trans; eassumption); eapply implb_trans; eassumption.
 Qed.
@@ -321,7 +326,7 @@ Proof.
   unfold ta_join. destruct (bot a) eqn:Ea; [unfold ta_leb; rewrite Ea; reflexivity|].
   destruct (bot b) eqn:Eb; [apply ta_leb_refl|].
   unfold ta_leb; rewrite Ea; simpl.
-  rewrite !meet_l, f2_join_l, f2_join_l, f1_join_l, f1_join_l, !implb_and_l. reflexivity.
+  rewrite !meet_l, !f2_join_l, !f1_join_l, !implb_and_l. reflexivity.
 Qed.
 
 Lemma ta_join_r a b : ta_leb b (ta_join a b) = true.
@@ -329,7 +334,7 @@ Proof.
   unfold ta_join. destruct (bot a) eqn:Ea; [apply ta_leb_refl|].
   destruct (bot b) eqn:Eb; [unfold ta_leb; rewrite Eb; reflexivity|].
   unfold ta_leb; rewrite Eb; simpl.
-  rewrite !meet_r, f2_join_r, f2_join_r, f1_join_r, f1_join_r, !implb_and_r. reflexivity.
+  rewrite !meet_r, !f2_join_r, !f1_join_r, !implb_and_r. reflexivity.
 Qed.
 
 (* ================================================================ histories *)
@@ -705,16 +710,19 @@ Section Sound.
     exists a1 a2, getr (fst p) cur x = Some a1 /\ getr (snd p) cur x = Some a2 /\ klt (afit a1) (afit a2) = true.
   Definition tl_ok cur x (r : ref) : Prop := exists a1, getr r cur x = Some a1 /\ klt (tmp x) (afit a1) = true.
   Definition tq_ok cur x (r : ref) : Prop := exists a1, getr r cur x = Some a1 /\ tmp x = f (apos a1).
+  Definition ff_ok cur x (p : ref * ref) : Prop :=
+    exists a1 a2, getr (fst p) cur x = Some a1 /\ getr (snd p) cur x = Some a2 /\ afit a1 = afit a2.
 
   Record TGf (a : ta) (cur : option nat) (x : st) : Prop := {
     f_pf : forall p, pf a = Some p -> pf_ok cur x p;
     f_fl : forall p, fl a = Some p -> fl_ok cur x p;
     f_tl : forall r, tl a = Some r -> tl_ok cur x r;
-    f_tq : forall r, tq a = Some r -> tq_ok cur x r
+    f_tq : forall r, tq a = Some r -> tq_ok cur x r;
+    f_ff : forall p, ff a = Some p -> ff_ok cur x p
   }.
 
-  Lemma TGf_none a cur x : pf a = None -> fl a = None -> tl a = None -> tq a = None -> TGf a cur x.
-  Proof. intros H1 H2 H3 H4. constructor; intros p Hp; congruence. Qed.
+  Lemma TGf_none a cur x : pf a = None -> fl a = None -> tl a = None -> tq a = None -> ff a = None -> TGf a cur x.
+  Proof. intros H1 H2 H3 H4 H5. constructor; intros p Hp; congruence. Qed.
 
   Record TGr (a : ta) (x : st) (ld : option st) : Prop := {
     r_srt : srt a = true -> sortedk (fits (pop x));
@@ -748,17 +756,17 @@ Section Sound.
   Lemma cls_mono a b cur j : bot a = false -> ta_leb a b = true -> av_leb (cls a cur j) (cls b cur j) = true.
   Proof.
     unfold ta_leb. intros -> H. simpl in H. rewrite !andb_true_iff in H.
-    destruct H as [_ [[[[[[[[[[[[[H1 H2] H3] H4] H5] H6] H7] H8] H9] H10] H11] H12] H13] H14]].
+    destruct H as [_ [[[[[[[[[[[[[[H1 H2] H3] H4] H5] H6] H7] H8] H9] H10] H11] H15] H12] H13] H14]].
     unfold cls. destruct cur as [i|]; [destruct (j <? i); [|destruct (j =? i)]|]; assumption.
   Qed.
 
   Lemma TG_mono a b cur x h : ta_leb a b = true -> TG a cur x h -> TG b cur x h.
   Proof.
-    intros Hle [[P0 P1 P2 P3 P4 P5 P6 P7] [F1 F2 F3 F4] [R1 R2] Hnd Hok Hadj].
+    intros Hle [[P0 P1 P2 P3 P4 P5 P6 P7] [F1 F2 F3 F4 F5] [R1 R2] Hnd Hok Hadj].
     pose proof Hle as Hle'. unfold ta_leb in Hle'. rewrite P0 in Hle'. simpl in Hle'. rewrite !andb_true_iff in Hle'.
-    destruct Hle' as [Hb [[[[[[[[[[[[[H1 H2] H3] H4] H5] H6] H7] H8] H9] H10] H11] H12] H13] H14]].
+    destruct Hle' as [Hb [[[[[[[[[[[[[[H1 H2] H3] H4] H5] H6] H7] H8] H9] H10] H11] H15] H12] H13] H14]].
     apply negb_true_iff in Hb.
-    rewrite f2_leb_spec in H8, H9. rewrite f1_leb_spec in H10, H11.
+    rewrite f2_leb_spec in H8, H9, H15. rewrite f1_leb_spec in H10, H11.
     constructor; try assumption.
     - constructor; try assumption.
       + intros j ag Hn. eapply sok_mono; [apply (cls_mono a b cur j P0 Hle)|]. apply P2; assumption.
@@ -851,19 +859,19 @@ Section Sound.
 
   (* ---------------------------------------------------------------- assembling TGd *)
   Definition same_all (a b : ta) : Prop :=
-    same_cls a b /\ pf a = pf b /\ fl a = fl b /\ tl a = tl b /\ tq a = tq b /\ srt a = srt b /\ rk a = rk b /\ nd a = nd b.
+    same_cls a b /\ pf a = pf b /\ fl a = fl b /\ tl a = tl b /\ tq a = tq b /\ ff a = ff b /\ srt a = srt b /\ rk a = rk b /\ nd a = nd b.
 
   Lemma TGd_ext a b cur x D : same_all a b -> TGd a cur x D -> TGd b cur x D.
   Proof.
-    intros (Hc & E1 & E2 & E3 & E4 & E5 & E6 & E7) [HP [F1 F2 F3 F4] [R1 R2] Hnd Hok Hadj].
+    intros (Hc & E1 & E2 & E3 & E4 & E8 & E5 & E6 & E7) [HP [F1 F2 F3 F4 F5] [R1 R2] Hnd Hok Hadj].
     constructor; try assumption.
     - eapply TGp_ext; eassumption.
-    - constructor; intros p Hp; [apply F1|apply F2|apply F3|apply F4]; congruence.
+    - constructor; intros p Hp; [apply F1|apply F2|apply F3|apply F4|apply F5]; congruence.
     - constructor; intros H; [apply R1|apply R2]; congruence.
     - intros H. apply Hnd. congruence.
   Qed.
 
-  Lemma wr_proj r v a : pf (wr r v a) = pf a /\ fl (wr r v a) = fl a /\ tl (wr r v a) = tl a /\ tq (wr r v a) = tq a /\
+  Lemma wr_proj r v a : pf (wr r v a) = pf a /\ fl (wr r v a) = fl a /\ tl (wr r v a) = tl a /\ tq (wr r v a) = tq a /\ ff (wr r v a) = ff a /\
     srt (wr r v a) = srt a /\ rk (wr r v a) = rk a /\ nd (wr r v a) = nd a /\ bot (wr r v a) = bot a.
   Proof. destruct r; repeat split. Qed.
 
@@ -883,27 +891,27 @@ Section Sound.
     TGd (set_srk (wr r v (nf a)) s' k') cur x' D.
   Proof.
     intros [HP HF HR Hnd Hok Hadj] Hs Hv Hx Hs' Hk'.
-    destruct (wr_proj r v (nf a)) as (E1 & E2 & E3 & E4 & E5 & E6 & E7 & E8).
+    destruct (wr_proj r v (nf a)) as (E1 & E2 & E3 & E4 & E9 & E5 & E6 & E7 & E8).
     constructor; try assumption.
     - eapply TGp_ext; [|eapply TGp_write; [exact HP|exact Hs|exact Hv|]].
       + destruct r; repeat split.
       + exact Hx.
-    - apply TGf_none; simpl; [rewrite E1|rewrite E2|rewrite E3|rewrite E4]; reflexivity.
+    - apply TGf_none; simpl; [rewrite E1|rewrite E2|rewrite E3|rewrite E4|rewrite E9]; reflexivity.
     - constructor; simpl; assumption.
     - simpl. rewrite E7. exact Hnd.
   Qed.
 
   (* a write that keeps the fitness *)
-  Lemma TGd_pos_write a cur x D r ag ag' x' fe :
+  Lemma TGd_pos_write a cur x D r ag ag' x' fe co :
     TGd a cur x D -> getr r cur x = Some ag -> setr r cur ag' x = Some x' -> afit ag' = afit ag ->
-    wf lbs (apos ag') -> (fe = true -> feasible lbs ubs (apos ag') = true) ->
-    TGd (wr r (posv fe (rd r a)) (nf a)) cur x' D.
+    wf lbs (apos ag') -> (fe = true -> feasible lbs ubs (apos ag') = true) -> (co = true -> afit ag' = f (apos ag')) ->
+    TGd (wr r (posv fe co (rd r a)) (nf a)) cur x' D.
   Proof.
-    intros HG Hg Hs Hf Hw Hfe.
-    eapply TGd_ext; [|eapply (TGd_write a cur x D r ag' x' (posv fe (rd r a)) (srt a) (rk a)); [exact HG|exact Hs| | | |]].
+    intros HG Hg Hs Hf Hw Hfe Hco.
+    eapply TGd_ext; [|eapply (TGd_write a cur x D r ag' x' (posv fe co (rd r a)) (srt a) (rk a)); [exact HG|exact Hs| | | |]].
     - destruct r; repeat split.
     - pose proof (TGp_read _ _ _ _ _ _ (d_p _ _ _ _ HG) Hg) as (K1 & K2 & K3 & K4).
-      split; [exact Hw|split; [exact Hfe|split; [simpl; discriminate|]]]. simpl. rewrite Hf. exact K4.
+      split; [exact Hw|split; [exact Hfe|split; [exact Hco|]]]. simpl. rewrite Hf. exact K4.
     - intros j Hsl Hi.
       pose proof (TGp_read_slot _ _ _ _ _ _ _ (d_p _ _ _ _ HG) Hsl Hi (getr_slot_nth _ _ _ _ _ Hsl Hg Hi)) as [_ [K1 K2]].
       split; simpl; rewrite Hf; assumption.
@@ -954,13 +962,15 @@ Section Sound.
 
   Lemma TGf_eqv a cur x x' : st_eqv x x' -> tmp x' = tmp x -> TGf a cur x -> TGf a cur x'.
   Proof.
-    intros He Et [F1 F2 F3 F4].
+    intros He Et [F1 F2 F3 F4 F5].
     constructor; intros p Hp; [destruct (F1 p Hp) as (a1 & a2 & H1 & H2 & H3)|destruct (F2 p Hp) as (a1 & a2 & H1 & H2 & H3)
-                               |destruct (F3 p Hp) as (a1 & H1 & H2)|destruct (F4 p Hp) as (a1 & H1 & H2)].
+                               |destruct (F3 p Hp) as (a1 & H1 & H2)|destruct (F4 p Hp) as (a1 & H1 & H2)
+                               |destruct (F5 p Hp) as (a1 & a2 & H1 & H2 & H3)].
     - exists a1, a2. rewrite !(getr_eqv _ _ _ _ He). auto.
     - exists a1, a2. rewrite !(getr_eqv _ _ _ _ He). auto.
     - exists a1. rewrite (getr_eqv _ _ _ _ He), Et. auto.
     - exists a1. rewrite (getr_eqv _ _ _ _ He), Et. auto.
+    - exists a1, a2. rewrite !(getr_eqv _ _ _ _ He). auto.
   Qed.
 
   Lemma TGd_eqv a cur x x' D : st_eqv x x' -> tmp x' = tmp x -> TGd a cur x D -> TGd a cur x' D.
@@ -996,7 +1006,7 @@ Section Sound.
   (* before the first record the "not above the previous record" claims hold vacuously *)
   Lemma TGd_vac a cur x D : nd a = true -> TGd a cur x D -> TGd (vac a) cur x D.
   Proof.
-    intros Hn [[P0 P1 P2 P3 P4 P5 P6 P7] [F1 F2 F3 F4] [R1 R2] Hnd Hok Hadj].
+    intros Hn [[P0 P1 P2 P3 P4 P5 P6 P7] [F1 F2 F3 F4 F5] [R1 R2] Hnd Hok Hadj].
     specialize (Hnd Hn).
     constructor; try assumption.
     - constructor; try assumption.
@@ -1145,17 +1155,18 @@ Section Sound.
       pose proof (TGp_read _ _ _ _ _ _ (d_p _ _ _ _ HG) Eg) as (Kw & _).
       pose proof (okc_wf lbs _ _ Eok Kw) as Hwf.
       destruct m; (destruct (setr r cur _ x) as [x1|] eqn:Es; [|discriminate]); inv_ret Hex; rewrite app_nil_r; unfold TG in *.
-      + apply TGd_next. eapply TGd_pos_write; [exact HG|exact Eg|exact Es|reflexivity|exact Hwf|discriminate].
-      + eapply TGd_pos_write; [exact HG|exact Eg|exact Es|reflexivity|exact Hwf|discriminate].
+      + apply TGd_next. eapply TGd_pos_write; [exact HG|exact Eg|exact Es|reflexivity|exact Hwf|discriminate|discriminate].
+      + eapply TGd_pos_write; [exact HG|exact Eg|exact Es|reflexivity|exact Hwf|discriminate|discriminate].
     - (* Clip *)
       destruct (getr r cur x) as [ag|] eqn:Eg; [|discriminate].
       destruct (setr r cur _ x) as [x1|] eqn:Es; [|discriminate]. inv_ret Hex. rewrite app_nil_r. unfold TG in *.
       pose proof (TGp_read _ _ _ _ _ _ (d_p _ _ _ _ HG) Eg) as (Kw & Kf & _).
       destruct (feas (rd r a)) eqn:Ef; injection Hab as <-.
       + rewrite (clipa_fix ag (Kf eq_refl)) in Es. rewrite (setr_same _ _ _ _ _ Eg Es). exact HG.
-      + eapply TGd_pos_write; [exact HG|exact Eg|exact Es|reflexivity| |].
+      + eapply TGd_pos_write; [exact HG|exact Eg|exact Es|reflexivity| | |].
         * simpl. apply clipc_wf. exact Kw.
         * intros _. simpl. apply clipc_feasible; assumption.
+        * discriminate.
     - (* ClipAll *)
       injection Hab as <-. inv_ret Hex. rewrite app_nil_r. unfold TG in *.
       destruct HG as [[P0 P1 P2 P3 P4 P5 P6 P7] HF [R1 R2] Hnd Hok Hadj].
@@ -1167,7 +1178,7 @@ Section Sound.
         * intros j b Hn. rewrite nth_error_map in Hn. destruct (nth_error (pop x) j) as [ag|] eqn:En; [|discriminate].
           injection Hn as <-. specialize (P2 j ag En). rewrite cls_set_pop.
           assert (Hg : forall v, sok v (loc x) (lasto (dumps h)) j ag ->
-                    sok (if feas v then v else posv true v) (loc x) (lasto (dumps h)) j (clipa lbs ubs ag)).
+                    sok (if feas v then v else posv true false v) (loc x) (lasto (dumps h)) j (clipa lbs ubs ag)).
           { intros v Hv. destruct (feas v) eqn:Ef.
             - pose proof Hv as [(_ & K2 & _) _]. rewrite (clipa_fix ag (K2 Ef)). exact Hv.
             - destruct Hv as [(K1 & K2 & K3 & K4) [K5 K6]]. split; [split; [apply clipc_wf; exact K1|split; [intros _; apply clipc_feasible; assumption|split; [discriminate|exact K4]]]|].
@@ -1209,9 +1220,12 @@ Section Sound.
       destruct (getr d cur x) as [ag|] eqn:Eg; [|discriminate].
       destruct (getr s cur x) as [bg|] eqn:Eg2; [|discriminate].
       destruct (setr d cur _ x) as [x1|] eqn:Es; [|discriminate]. inv_ret Hex. rewrite app_nil_r. unfold TG in *.
-      pose proof (TGp_read _ _ _ _ _ _ (d_p _ _ _ _ HG) Eg2) as (Kw & Kf & _).
-      assert (H1 : TGd (wr d (posv (feas (rd s a)) (rd d a)) (nf a)) cur x1 (dumps h))
-        by (eapply TGd_pos_write; [exact HG|exact Eg|exact Es|reflexivity|exact Kw|exact Kf]).
+      pose proof (TGp_read _ _ _ _ _ _ (d_p _ _ _ _ HG) Eg2) as (Kw & Kf & Kc & _).
+      assert (H1 : TGd (wr d (posv (feas (rd s a)) (f2_is (ff a) (d, s) && cons (rd s a)) (rd d a)) (nf a)) cur x1 (dumps h)).
+      { eapply TGd_pos_write; [exact HG|exact Eg|exact Es|reflexivity|exact Kw|exact Kf|].
+        simpl. intros Hq. apply andb_true_iff in Hq as [Hq Hc]. apply f2_is_eq in Hq.
+        destruct (f_ff _ _ _ (d_f _ _ _ _ HG) _ Hq) as (a1 & a2 & L1 & L2 & L3). simpl in L1, L2.
+        rewrite Eg in L1. rewrite Eg2 in L2. injection L1 as <-. injection L2 as <-. rewrite L3. apply Kc, Hc. }
       pose proof (TGd_next _ _ _ _ (S (next x)) H1) as H2. clear H1. revert H2. apply TGd_refacts; try (destruct d; repeat split; fail).
       constructor; simpl; try discriminate.
       + intros p Hp. injection Hp as <-. unfold pf_ok; simpl. rewrite !getr_with_next.
@@ -1229,6 +1243,14 @@ Section Sound.
       destruct (getr s cur x) as [bg|] eqn:Eg2; [|discriminate].
       destruct (setr d cur _ x) as [x1|] eqn:Es; [|discriminate]. inv_ret Hex. rewrite app_nil_r. unfold TG in *.
       pose proof (TGp_read _ _ _ _ _ _ (d_p _ _ _ _ HG) Eg2) as (Kw & Kf & Kc & Ks).
+      eapply (TGd_refacts (set_srk (wr d (fitv (rd d a) (f2_is (pf a) (d, s) && cons (rd s a)) (sent (rd s a))
+                                             (mono (rd d a) && f2_is (fl a) (s, d))) (nf a)) false (rk a && negb (slotlike d))));
+        try (destruct d; repeat split; fail).
+      { constructor; simpl; try discriminate.
+        intros p Hp. injection Hp as <-. unfold ff_ok; simpl.
+        exists {| apos := apos ag; aid := aid ag; afit := afit bg |}.
+        destruct (getr_setr _ _ _ _ _ _ _ Es Eg2) as [K|[K _]]; rewrite K, (getr_setr_same _ _ _ _ _ Es);
+          eexists; (split; [reflexivity|split; [reflexivity|reflexivity]]). }
       eapply TGd_fit_write; [exact HG|exact Eg|exact Es|reflexivity| | |]; simpl.
       + intros Hq. apply andb_true_iff in Hq as [Hq Hc]. apply f2_is_eq in Hq.
         destruct (f_pf _ _ _ (d_f _ _ _ _ HG) _ Hq) as (a1 & a2 & H1 & H2 & H3). simpl in H1, H2.
@@ -1283,9 +1305,9 @@ Section Sound.
       destruct (setr b cur _ x1) as [x2|] eqn:Es2; [|discriminate]. inv_ret Hex. rewrite app_nil_r. unfold TG in *.
       pose proof (TGp_read _ _ _ _ _ _ (d_p _ _ _ _ HG) Eg) as (Kp & _).
       pose proof (TGp_read _ _ _ _ _ _ (d_p _ _ _ _ HG) Eg2) as (Kq & _).
-      assert (H1 : TGd (wr a0 (posv false (rd a0 a)) (nf a)) cur x1 (dumps h))
-        by (eapply TGd_pos_write; [exact HG|exact Eg|exact Es|reflexivity|exact Kq|discriminate]).
-      eapply TGd_ext; [|eapply (TGd_pos_write _ _ _ _ b q1 _ _ false); [exact H1|exact Eg3|exact Es2|reflexivity|exact Kp|discriminate]].
+      assert (H1 : TGd (wr a0 (posv false false (rd a0 a)) (nf a)) cur x1 (dumps h))
+        by (eapply TGd_pos_write; [exact HG|exact Eg|exact Es|reflexivity|exact Kq|discriminate|discriminate]).
+      eapply TGd_ext; [|eapply (TGd_pos_write _ _ _ _ b q1 _ _ false false); [exact H1|exact Eg3|exact Es2|reflexivity|exact Kp|discriminate|discriminate]].
       destruct a0, b; repeat split.
     - (* SwapFit *)
       injection Hab as <-.
@@ -1349,7 +1371,7 @@ Section Sound.
       destruct (okc (apos ag) c) eqn:Eok; simpl in Hex; [|discriminate].
       destruct (setr r (Some i) _ x) as [x1|] eqn:Es; [|discriminate]. inv_ret Hex. rewrite app_nil_r. unfold TG in *.
       pose proof (TGp_read _ _ _ _ _ _ (d_p _ _ _ _ HG) Eg) as (Kw & _).
-      apply TGd_next. eapply TGd_pos_write; [exact HG|exact Eg|exact Es|reflexivity|eapply okc_wf; eassumption|discriminate].
+      apply TGd_next. eapply TGd_pos_write; [exact HG|exact Eg|exact Es|reflexivity|eapply okc_wf; eassumption|discriminate|discriminate].
     - (* BestTreeCopy *)
       injection Hab as <-.
       destruct cur as [i|]; [|discriminate].
@@ -1389,14 +1411,14 @@ Section Sound.
       destruct b; [|exact HG]. simpl in Hev.
       destruct (getr a0 cur x) as [p|] eqn:E1; [|discriminate]. destruct (getr b0 cur x) as [q|] eqn:E2; [|discriminate].
       injection Hev as Hk _.
-      destruct (d_f _ _ _ _ HG) as [F1 F2 F3 F4].
+      destruct (d_f _ _ _ _ HG) as [F1 F2 F3 F4 F5].
       revert HG. apply TGd_refacts; try (repeat split; fail).
       constructor; simpl; try assumption.
       intros p0 Hp. injection Hp as <-. exists p, q. simpl. auto.
     - (* TmpLt *)
       simpl in Hev. destruct (getr a0 cur x) as [p|] eqn:E1; [|discriminate]. injection Hev as Hk _.
       destruct b.
-      + destruct (d_f _ _ _ _ HG) as [F1 F2 F3 F4].
+      + destruct (d_f _ _ _ _ HG) as [F1 F2 F3 F4 F5].
         revert HG. apply TGd_refacts; try (repeat split; fail).
         constructor; simpl; try assumption.
         intros r Hr. injection Hr as <-. exists p. auto.
@@ -1456,7 +1478,7 @@ Section Sound.
   Proof.
     unfold ta_leb, enter3; simpl. destruct (bot a); simpl; [reflexivity|]. destruct (bot b); simpl; [discriminate|].
     rewrite !andb_true_iff.
-    intros [[[[[[[[[[[[[H1 H2] H3] H4] H5] H6] H7] H8] H9] H10] H11] H12] H13] H14]. repeat split; assumption.
+    intros [[[[[[[[[[[[[[H1 H2] H3] H4] H5] H6] H7] H8] H9] H10] H11] H15] H12] H13] H14]. repeat split; assumption.
   Qed.
 
   Lemma start3_sound a x h : TG a None x h -> TG (enter3 (start3 a)) (Some 0) x h.
